@@ -39,6 +39,7 @@ type fontInfo struct {
 	Chars     []tuChar
 	CIDToGID  []uint16 // nil = identity
 	HasMap    bool
+	MapRaw    []byte
 	Program   *font.SFNT
 	ProgErr   error
 	ProgRaw   []byte
@@ -306,6 +307,7 @@ func readFont(f *pdfFile, v any) (*fontInfo, error) {
 				return nil, fmt.Errorf("CIDToGIDMap: %v", err)
 			}
 			fi.HasMap = true
+			fi.MapRaw = data
 			fi.CIDToGID = make([]uint16, len(data)/2)
 			for i := range fi.CIDToGID {
 				fi.CIDToGID[i] = uint16(data[2*i])<<8 | uint16(data[2*i+1])
